@@ -107,6 +107,15 @@ def cases(tier, seed):
         for (i, j) in itertools.combinations(range(n), 2):
             for comp in (0, 1, 2, 3):
                 out.append({"key": f"reject/offdiag/n={n}/{i}{j}/c={comp}", "grp": "rej", "sub": "offdiag", "n": n, "i": i, "j": j, "comp": comp})
+    # the same single defects (size 2^-7 .. 0.75) next to a consistent Hermitian entry that is 2^28 times larger: Hermitian-ness is an
+    # entry-wise statement, a large entry elsewhere does not make an O(1) asymmetry negligible
+    for n in (3, 4):
+        for comp in (0, 1, 2, 3):
+            for big in ("diag", "offpair"):
+                for dsz in (0.75, 2.0 ** -7):
+                    if comp:
+                        out.append({"key": f"reject/diag/n={n}/pos={n - 1}/c={comp}/big={big}/d={dsz:g}", "grp": "rej", "sub": "diag", "n": n, "pos": n - 1, "comp": comp, "big": big, "dsz": dsz})
+                    out.append({"key": f"reject/offdiag/n={n}/{n - 2}{n - 1}/c={comp}/big={big}/d={dsz:g}", "grp": "rej", "sub": "offdiag", "n": n, "i": n - 2, "j": n - 1, "comp": comp, "big": big, "dsz": dsz})
     return out
 
 
@@ -275,10 +284,16 @@ def run_case(case, seed):
             A = 0.5 * (A + O.qH(A))
             for t in range(n):
                 A[t, t, 1:] = 0.0
+            if case.get("big") == "diag":
+                A[0, 0, 0] = 2.0 ** 28
+            elif case.get("big") == "offpair":
+                A[0, 1] = np.ldexp(A[0, 1] + np.array([1.0, 0.5, 0, 0]), 28)
+                A[1, 0] = A[0, 1] * np.array([1.0, -1.0, -1.0, -1.0])
+            dsz = case.get("dsz", 0.75)
             if case["sub"] == "diag":
-                A[case["pos"], case["pos"], case["comp"]] = 0.75
+                A[case["pos"], case["pos"], case["comp"]] = dsz
             else:
-                A[case["j"], case["i"], case["comp"]] += 0.75  # only one triangle changed, only one component
+                A[case["j"], case["i"], case["comp"]] += dsz  # only one triangle changed, only one component
         else:
             A = G.herm_with_spectrum(O.qeye(n), [1.0] * n)
             A[0, n - 1, 1] += 1.0  # O(1) non-Hermitian perturbation at O(1) scale
